@@ -22,7 +22,7 @@
    [C08_validated_policy_iff_spendable(_closed)], and every accepted stack carries a valid
    signature under a key of the script [C08_validated_needs_signature]. *)
 From Coq Require Import List Bool NArith Permutation.
-From Verif Require Import PolicyVal PolicyValProofs PolicyValWorlds PolicyValStruct PolicyValidator PolicyValEntry PolicyValSat
+From Verif Require Import PolicyVal PolicyValProofs PolicyValWorlds PolicyValStruct PolicyValNative PolicyValidator PolicyValEntry PolicyValSat
   PolicyValSigned PolicyValSpend PolicyValExec PolicyValMaterial.
 Import ListNotations.
 Local Open Scope N_scope.
@@ -120,17 +120,32 @@ Proof. exact equiv_dec_small. Qed.
 Print Assumptions C08_equiv_dec_small.
 
 (* Taproot outputs *)
-Theorem C08_validator_tr : forall kk pol ik inpol dl expected,
-  validate_tr kk pol ik inpol dl expected = true ->
+Theorem C08_validator_tr : forall kk pol ik inpol dl expected native,
+  validate_tr kk pol ik inpol dl expected native = true ->
   let leaves := map (fun x => fst (snd x)) dl in
   (forall W, evalc W pol = (inpol && w_key W ik) || existsb (fun m => evals W (lift_ms m)) leaves)
   /\ (inpol = false -> ~ In ik (keys_s (lift_c pol)) /\ ~ In ik (flat_map ms_keys leaves))
   /\ key_ok Tap (kk ik) = true
   /\ (dl = [] \/ exists t, dl = tree_depths 0 t /\ tree_maxdepth 0 t <= 128 /\ tree_leaves t = leaves)
   /\ (forall ex, expected = Some ex -> Permutation leaves ex)
-  /\ Forall (fun x => ms_facts Tap kk (fst (snd x)) (snd (snd x))) dl.
+  /\ Forall (fun x => ms_facts Tap kk (fst (snd x)) (snd (snd x))) dl
+  (* the entry point's own promise (compile_tr_native): IF-free leaves *)
+  /\ (native = true -> forall m, In m leaves ->
+       script_has_if (enc (val_keyenv kk) m) = false /\ has_if_frag m = false).
 Proof. exact validator_tr. Qed.
 Print Assumptions C08_validator_tr.
+
+(* "no OP_IF / OP_NOTIF / OP_IFDUP in the script" is exactly "none of the fragments d:, j:, andor,
+   or_d, or_c, or_i" (the library's has_if_fragment list), for every fragment and key table *)
+Theorem C08_native_exact : forall ke m, script_has_if (enc ke m) = has_if_frag m.
+Proof. exact script_has_if_exact. Qed.
+Print Assumptions C08_native_exact.
+Theorem C08_native_spelled : forall m, has_if_frag m = false ->
+  (forall x, ~ In (MDupIf x) (subterms m)) /\ (forall x, ~ In (MNonZero x) (subterms m))
+  /\ (forall a b c, ~ In (MAndOr a b c) (subterms m)) /\ (forall x y, ~ In (MOrD x y) (subterms m))
+  /\ (forall x y, ~ In (MOrC x y) (subterms m)) /\ (forall x y, ~ In (MOrI x y) (subterms m)).
+Proof. exact no_if_frag_spelled. Qed.
+Print Assumptions C08_native_spelled.
 
 (* the entry points the driver calls: an empty list of failing clauses is an accepted validation *)
 Theorem C08_run_ms_case_ok : forall c kkl bare pol m codes,
@@ -139,9 +154,9 @@ Theorem C08_run_ms_case_ok : forall c kkl bare pol m codes,
 Proof. exact run_ms_case_ok. Qed.
 Print Assumptions C08_run_ms_case_ok.
 
-Theorem C08_run_tr_case_ok : forall kkl pol ik inpol dl expected,
-  run_tr_case kkl pol ik inpol dl expected = [] ->
-  exists dl', decode_leaves dl = Some dl' /\ validate_tr (kk_of_list kkl) pol ik inpol dl' expected = true.
+Theorem C08_run_tr_case_ok : forall kkl pol ik inpol dl expected native,
+  run_tr_case kkl pol ik inpol dl expected native = [] ->
+  exists dl', decode_leaves dl = Some dl' /\ validate_tr (kk_of_list kkl) pol ik inpol dl' expected native = true.
 Proof. exact run_tr_case_ok. Qed.
 Print Assumptions C08_run_tr_case_ok.
 
